@@ -10,7 +10,7 @@
 (* specification TraceMain.tla, which checks recorded executions of the    *)
 (* real code against them.                                                 *)
 (***************************************************************************)
-EXTENDS Store
+EXTENDS Upgrade
 
 CONSTANTS
   Indexes,        \* index numbers in the database, e.g. {1, 2}
@@ -378,6 +378,9 @@ MetricChange ==
 
 \* C08/C10 (design level): abort restores exactly what was committed
 AbortRestores == [][(db' = committed /\ poisoned' = FALSE) \/ poisoned' = poisoned \/ poisoned']_vars
+
+\* C17 (design level): the upgrade functions on every reachable index value
+UpgradePreservesContent == \A i \in Indexes : RoundTrip(db[i]) /\ VersionStamp(db[i])
 
 \* C14 (design level): a build consumes a bounded number of fresh node ids; a batch loop that makes no
 \* progress (finding F7) burns one id per iteration and is caught by this bound long before the
